@@ -102,9 +102,9 @@ def h_round(ctx, case):
         ctx.check(Or(allint, And(new >= int(info.min),
                                  new <= int(info.max))),
                   'the chosen integer type holds every rounded value')
-    if ctx.mode != 'sym':
-        ctx.check(bool(is_int) == bool(allint),
-                  'is_x_integers <=> all stored values are integers')
+    ctx.check(allint if bool(is_int) else Not(allint),
+              'is_x_integers <=> all stored values are integers (to '
+              'within 1e-10)')
     left = [n for n in os.listdir(env.dir) if n != 'v.h5ad']
     ctx.check(left == [], 'no scratch left behind')
     return str(np.dtype(dt))
